@@ -15,28 +15,30 @@ import (
 )
 
 type Config struct {
-	MaxSteps   int  // per-path instruction budget
-	MaxLoop    int  // per-frame loop-header visit bound (unwinding assertion)
-	MaxDepth   int  // call depth
-	MaxAlloc   int  // largest make([]T, n)
-	MaxIte     int  // largest ite chain for symbolic index
-	MaxPaths   int  // stop after this many paths (reported as bound exceeded)
-	Trace      bool // instruction trace
-	RealFloats bool // int->float of symbolic values becomes Real terms
-	MapOrders  bool // explore iteration orders of small maps
-	SchedMode  int  // 0 = run-to-block, 1 = symbolic scheduler
-	CtxBound   int  // max preemptive context switches (symbolic scheduler)
-	EnvFires   int  // max environment (ticker/timer) firings per path
-	NPBound    int  // max free scheduling choices at blocking points per path (0 = unbounded)
-	Race       bool // happens-before race monitor
-	EnvBoundOK bool // a path on which everybody waits for a timer after the firing budget is spent is truncated (counted as "envbound"), not reported as a deadlock
-	EnvLazy    bool // tickers/timers fire only when every goroutine is blocked (no "fires now" choice)
-	Solver     string
-	TimeoutMS  int
-	Workers    int
+	MaxSteps        int  // per-path instruction budget
+	MaxLoop         int  // per-frame loop-header visit bound (unwinding assertion)
+	MaxDepth        int  // call depth
+	MaxAlloc        int  // largest make([]T, n)
+	MaxIte          int  // largest ite chain for symbolic index
+	MaxPaths        int  // stop after this many paths (reported as bound exceeded)
+	Trace           bool // instruction trace
+	RealFloats      bool // int->float of symbolic values becomes Real terms
+	MapOrders       bool // explore iteration orders of small maps
+	SchedMode       int  // 0 = run-to-block, 1 = symbolic scheduler
+	CtxBound        int  // max preemptive context switches (symbolic scheduler)
+	EnvFires        int  // max environment (ticker/timer) firings per path
+	NPBound         int  // max free scheduling choices at blocking points per path (0 = unbounded)
+	Race            bool // happens-before race monitor
+	LazyFires       int  // separate budget for timer firings at quiescence (0: they share EnvFires)
+	EnvBoundOK      bool // a path on which everybody waits for a timer after the firing budget is spent is truncated (counted as "envbound"), not reported as a deadlock
+	EnvLazy         bool // tickers/timers fire only when every goroutine is blocked (no "fires now" choice)
+	Solver          string
+	TimeoutMS       int
+	Workers         int
 	StopOnViolation bool
-	SelectChoice bool
-	Deadline   time.Time
+	SelectChoice    bool
+	SelectLast      bool // without SelectChoice: a select with several ready cases takes the last one (default: the first)
+	Deadline        time.Time
 }
 
 type Engine struct {
@@ -48,10 +50,10 @@ type Engine struct {
 	cfg      Config
 	traceOut io.Writer
 
-	icMu    sync.Mutex
-	icCache map[*ssa.Function]interceptFn
+	icMu       sync.Mutex
+	icCache    map[*ssa.Function]interceptFn
 	wantModels bool
-	params map[string]int
+	params     map[string]int
 }
 
 type Decision struct {
@@ -66,16 +68,16 @@ type workItem struct {
 }
 
 type Violation struct {
-	Kind      string            `json:"kind"` // check, panic, deadlock
-	Label     string            `json:"label"`
-	Site      string            `json:"site"`
-	Fn        string            `json:"fn"`
-	Msg       string            `json:"msg"`
-	Inputs    map[string]uint64 `json:"inputs"`
-	Sched     []int             `json:"sched,omitempty"`
-	Stack     []string          `json:"stack,omitempty"`
-	Tags      []string          `json:"tags,omitempty"`
-	PathDecisions int           `json:"path_decisions"`
+	Kind          string            `json:"kind"` // check, panic, deadlock
+	Label         string            `json:"label"`
+	Site          string            `json:"site"`
+	Fn            string            `json:"fn"`
+	Msg           string            `json:"msg"`
+	Inputs        map[string]uint64 `json:"inputs"`
+	Sched         []int             `json:"sched,omitempty"`
+	Stack         []string          `json:"stack,omitempty"`
+	Tags          []string          `json:"tags,omitempty"`
+	PathDecisions int               `json:"path_decisions"`
 }
 
 type symInput struct {
@@ -84,20 +86,20 @@ type symInput struct {
 }
 
 type PathResult struct {
-	End        string // "ok", "assume", "panic", "bound", "unsupported", "engine-error", "deadlock", "violation-stop"
-	Detail     string
-	Violations []Violation
-	Witnesses  []string
-	Checks     map[string]int // label -> times evaluated
-	Observes   []observation
-	Inputs     []symInput
-	Steps      int
-	Decisions  int
-	Model      Model // a model of the full path condition (if requested)
+	End                                                              string // "ok", "assume", "panic", "bound", "unsupported", "engine-error", "deadlock", "violation-stop"
+	Detail                                                           string
+	Violations                                                       []Violation
+	Witnesses                                                        []string
+	Checks                                                           map[string]int // label -> times evaluated
+	Observes                                                         []observation
+	Inputs                                                           []symInput
+	Steps                                                            int
+	Decisions                                                        int
+	Model                                                            Model // a model of the full path condition (if requested)
 	obligations, discharged, obligationsUnknown, unknowns, syntactic int
-	modelInputs map[string]uint64
-	observeVals []string
-	forkSites   map[string]int
+	modelInputs                                                      map[string]uint64
+	observeVals                                                      []string
+	forkSites                                                        map[string]int
 }
 
 type observation struct {
@@ -107,15 +109,15 @@ type observation struct {
 
 // Worker: one solver process + term table + shared std globals.
 type Worker struct {
-	id         int
-	eng        *Engine
-	tt         *TermTab
-	solver     *Solver
-	stdGlobals map[*ssa.Global]*Value
-	stdInited  map[*ssa.Package]bool
-	fnSeen     map[*ssa.Function]bool
+	id            int
+	eng           *Engine
+	tt            *TermTab
+	solver        *Solver
+	stdGlobals    map[*ssa.Global]*Value
+	stdInited     map[*ssa.Package]bool
+	fnSeen        map[*ssa.Function]bool
 	fnIntercepted map[*ssa.Function]bool
-	assumptions map[string]bool
+	assumptions   map[string]bool
 }
 
 // Run: one path execution.
@@ -136,9 +138,9 @@ type Run struct {
 	modelOK   bool
 	memo      map[*Term]uint64
 
-	steps   int
-	depth   int
-	fresh   int
+	steps                int
+	depth                int
+	fresh                int
 	unknownFloatBranches int
 
 	inputs    []symInput
@@ -148,43 +150,44 @@ type Run struct {
 	tags      []string
 
 	// goroutines
-	gs      []*Goroutine
-	cur     *Goroutine
-	main    *Goroutine
-	nativeWG sync.WaitGroup
-	abortWith *abortRun
-	schedTrace []int
-	ctxSwitches int
-	npChoices int
-	envFires int
-	nextChanID int
-	fsys *fsModel
-	ghost map[string][]Value
+	gs            []*Goroutine
+	cur           *Goroutine
+	main          *Goroutine
+	nativeWG      sync.WaitGroup
+	abortWith     *abortRun
+	schedTrace    []int
+	ctxSwitches   int
+	npChoices     int
+	envFires      int
+	lazyFires     int
+	nextChanID    int
+	fsys          *fsModel
+	ghost         map[string][]Value
 	solverUnknown int
-	mutexes map[*Value]*mutexState
-	wgs map[*Value]int64
-	onces map[*Value]bool
-	curFrame *frame
-	stubs    map[string]bool
-	shadow   map[interface{}]*shadowCell
-	racesSeen map[string]bool
-	syncVC   map[interface{}]vclock
-	lazyAxioms []*Term
+	mutexes       map[*Value]*mutexState
+	wgs           map[*Value]int64
+	onces         map[*Value]bool
+	curFrame      *frame
+	stubs         map[string]bool
+	shadow        map[interface{}]*shadowCell
+	racesSeen     map[string]bool
+	syncVC        map[interface{}]vclock
+	lazyAxioms    []*Term
 	lazyAxiomKeys []*Term
-	timersQuiet bool
-	realBacked map[string]bool
-	stubFuncs map[string]Value
-	pcSet    map[*Term]bool
+	timersQuiet   bool
+	realBacked    map[string]bool
+	stubFuncs     map[string]Value
+	pcSet         map[*Term]bool
 	clockConcrete bool
-	viper    map[string]Value
-	viperFile string
-	viperSerial int
-	tmpSerial int
-	nowCount int
-	lastNow *Term
-	envChans []*Chan
-	faultBudget int
-	notExist map[*Value]bool
+	viper         map[string]Value
+	viperFile     string
+	viperSerial   int
+	tmpSerial     int
+	nowCount      int
+	lastNow       *Term
+	envChans      []*Chan
+	faultBudget   int
+	notExist      map[*Value]bool
 }
 
 func (r *Run) noteFn(fn *ssa.Function, intercepted bool) {
